@@ -60,6 +60,7 @@ class Result:
         self.prims = set()
         self.path_outcomes = {}
         self.vacuity = None
+        self.crashed = False
 
     def all_discharged(self):
         return not self.undecided and self.obligations and all(o["status"] == "unsat" for o in self.obligations.values())
@@ -129,6 +130,12 @@ def run_contract(con, timeout_ms=10000, keep_models=True, verbose=False):
             outcome = "unsupported"
             if verbose:
                 traceback.print_exc()
+        except Exception as e:
+            res.undecided.append("engine error (checker defect, not a verdict about the code): %r" % (e,))
+            res.crashed = True
+            outcome = "engine-error"
+            if verbose:
+                traceback.print_exc()
         work.extend(ctx.pending)
         res.paths += 1
         res.path_outcomes[outcome] = res.path_outcomes.get(outcome, 0) + 1
@@ -142,7 +149,14 @@ def run_contract(con, timeout_ms=10000, keep_models=True, verbose=False):
                         ob.path.append(t == t)          # a tautology: only makes the term visible to instantiation
                 except Exception as e:
                     res.undecided.append("hints failed: %r" % (e,))
-            r = solve.solve_obligation(ctx, ob, timeout_ms)
+            try:
+                r = solve.solve_obligation(ctx, ob, timeout_ms)
+            except Exception as e:
+                res.undecided.append("engine error while discharging %s: %r" % (ob.oid, e))
+                res.crashed = True
+                if verbose:
+                    traceback.print_exc()
+                r = {"status": "error", "backend": "none", "time_s": 0.0}
             agg = res.obligations.setdefault(ob.oid, {"status": "unsat", "kind": ob.kind, "paths": 0, "time_s": 0.0,
                                                       "backends": {}, "note": ob.note, "instances": 0})
             agg["paths"] += 1
